@@ -43,6 +43,9 @@ func (g *gctx) truncate(s string) string {
 		return s
 	}
 	at := pick(g.t, "cut-at", len(s)+1)
+	if chance(g.t, "cut-mid-rune", 80) {
+		return s[:at] // wherever the byte offset falls: a multi-byte character may be cut in two
+	}
 	for at > 0 && at < len(s) && !utf8.RuneStart(s[at]) {
 		at--
 	}
